@@ -85,7 +85,7 @@ Proof.
     + destruct (negb (closed sd s) && (finished sh s && closes sh sd || grace_over sh s)) eqn:E; inversion H; subst.
       apply andb_true_iff in E as [E1 E2]. apply negb_true_iff in E1. apply orb_true_iff in E2.
       constructor; assumption.
-    + destruct (dstepb sh (can_copy sh s) (any_closed s) (get d s) a) eqn:E; inversion H; subst.
+    + destruct (dstepb sh (can_copy sh s) (may_break sh s d) (get d s) a) eqn:E; inversion H; subst.
       constructor. apply dstepb_iff; assumption.
   - intro H; inversion H; subst; simpl.
     + assert ((0 <=? dt)%Z = true) as -> by (apply Z.leb_le; assumption). reflexivity.
@@ -129,7 +129,7 @@ Ltac dsplit := refine (conj _ (conj _ (conj _ (conj _ (conj _ (conj _ _)))))).
 Lemma dinv_dstep sh d ok brk x a x' :
   shape_ok sh -> (ok = true -> d_pre x = []) -> dinv sh d x -> dstep sh ok brk x a x' -> dinv sh d x'.
 Proof.
-  intros (_ & _ & Hcw & _ & Hbuf & _ & _ & _) Hok (I1 & I2 & I3 & I4 & I5 & I6 & I7) H.
+  intros (_ & _ & Hcw & _ & Hbuf & _ & _ & _ & _) Hok (I1 & I2 & I3 & I4 & I5 & I6 & I7) H.
   destruct I1 as (lost & Eall & Hlost).
   inversion H; subst; unfold dinv; simpl; dsplit; simpl;
     try solve [ auto | intros; discriminate | rewrite len_nil; lia
@@ -167,7 +167,7 @@ Ltac gsplit := refine (conj _ (conj _ (conj _ (conj _ (conj _ (conj _ (conj _ _)
 
 Lemma ginv_init sh e o k : shape_ok sh -> ginv sh (init e o k).
 Proof.
-  intros (_ & _ & _ & _ & Hb & _ & _ & _).
+  intros (_ & _ & _ & _ & Hb & _ & _ & _ & _).
   unfold ginv, init; gsplit; simpl.
   - intros [|]; unfold dinv; simpl; dsplit; simpl; try solve [auto | intros; discriminate | rewrite len_nil; lia].
     + exists []. simpl. rewrite app_nil_r. split; reflexivity.
@@ -239,10 +239,13 @@ Proof.
   unfold can_copy. intros -> H. simpl in H. apply andb_true_iff in H as [_ H]. apply is_nil_true; assumption.
 Qed.
 
+Lemma may_break_ok sh s d : sh_clears_deadline sh = true -> may_break sh s d = any_closed s.
+Proof. unfold may_break. intros ->. simpl. apply orb_false_r. Qed.
+
 Lemma ginv_step sh s l s' : shape_ok sh -> ginv sh s -> step sh s l s' -> ginv sh s'.
 Proof.
   intros Hsh (ID & G1 & G2 & G3 & G4 & G5 & G6 & G7) H.
-  pose proof Hsh as (Hdf & Hrr & Hcw & Hwa & Hb & Hg & Hcu & Hcd).
+  pose proof Hsh as (Hdf & Hrr & Hcw & Hwa & Hb & Hg & Hcu & Hcd & Hdl).
   inversion H; subst.
   - (* tick *)
     unfold ginv, tick; gsplit; simpl.
@@ -312,7 +315,7 @@ Proof.
     + assert (s_first (close_side s sd) = s_first s) as -> by (destruct sd; reflexivity).
       intros E d. specialize (G7 E d). destruct d, sd; simpl in *; assumption.
   - (* a step of direction d *)
-    rename H0 into HD.
+    rename H0 into HD. rewrite (may_break_ok _ _ _ Hdl) in HD.
     assert (Hok : can_copy sh s = true -> d_pre (get d s) = []).
     { intro C. destruct d; [apply (can_copy_pre sh); assumption|].
       destruct (ID TC) as (_ & _ & _ & _ & _ & I6 & _). apply I6; reflexivity. }
@@ -488,7 +491,7 @@ Definition quiet : Prop := forall l s', step sh s l s' -> is_env l = true.
 Lemma quiet_done d : quiet -> d_wcl (get d s) = true -> d_cop (get d s) = Done.
 Proof.
   intros Q W.
-  destruct Hsh as (Hdf & Hrr & Hcw & Hwa & Hb & Hg & Hcu & Hcd).
+  destruct Hsh as (Hdf & Hrr & Hcw & Hwa & Hb & Hg & Hcu & Hcd & Hdl).
   destruct reach_inv as (ID & G1 & G2 & G3 & G4 & G5 & G6 & G7).
   (* the reply has been written *)
   assert (Rp : s_replied s = true).
@@ -497,18 +500,18 @@ Proof.
   - (* Idle *)
     destruct (ID d) as (_ & _ & I3 & _). specialize (I3 C).
     destruct (s_up s || s_down s) eqn:AC.
-    + assert (St : dstep sh (can_copy sh s) (any_closed s) (get d s) Abort (upd_abort (get d s))).
-      { constructor; [exact AC | rewrite C; reflexivity]. }
+    + assert (St : dstep sh (can_copy sh s) (may_break sh s d) (get d s) Abort (upd_abort (get d s))).
+      { constructor; [rewrite (may_break_ok _ _ _ Hdl); exact AC | rewrite C; reflexivity]. }
       specialize (Q _ _ (S_dir sh s d Abort _ St)). discriminate.
     + (* early bytes still buffered: drain is enabled, or a copier already started *)
       destruct (d_pre (s_ct s)) eqn:P.
       * assert (CC : can_copy sh s = true) by (unfold can_copy; rewrite Rp, P, Hdf; reflexivity).
         destruct (d_src (get d s)) eqn:Sr.
-        -- assert (St : dstep sh (can_copy sh s) (any_closed s) (get d s) ReadEOF (upd_eof (get d s))).
+        -- assert (St : dstep sh (can_copy sh s) (may_break sh s d) (get d s) ReadEOF (upd_eof (get d s))).
            { constructor; auto. rewrite C; reflexivity. }
            specialize (Q _ _ (S_dir sh s d ReadEOF _ St)). discriminate.
         -- pose (bs := firstn (N.to_nat (sh_bufsz sh)) (d_src (get d s))).
-           assert (St : dstep sh (can_copy sh s) (any_closed s) (get d s) (Read bs)
+           assert (St : dstep sh (can_copy sh s) (may_break sh s d) (get d s) (Read bs)
                               (upd_read (get d s) bs (skipn (N.to_nat (sh_bufsz sh)) (d_src (get d s))))).
            { constructor; auto.
              - rewrite C; reflexivity.
@@ -537,8 +540,8 @@ Proof.
   - (* Copying *)
     destruct (d_buf (get d s)) eqn:B.
     + destruct (s_up s || s_down s) eqn:AC.
-      * assert (St : dstep sh (can_copy sh s) (any_closed s) (get d s) Abort (upd_abort (get d s))).
-        { constructor; [exact AC | rewrite C; reflexivity]. }
+      * assert (St : dstep sh (can_copy sh s) (may_break sh s d) (get d s) Abort (upd_abort (get d s))).
+        { constructor; [rewrite (may_break_ok _ _ _ Hdl); exact AC | rewrite C; reflexivity]. }
         specialize (Q _ _ (S_dir sh s d Abort _ St)). discriminate.
       * assert (Fo : s_forced s = false \/ s_forced s = true) by (destruct (s_forced s); auto).
         destruct Fo as [Fo|Fo].
@@ -546,11 +549,11 @@ Proof.
            { apply G1; [assumption|]. exists d. rewrite C. discriminate. }
            assert (CC : can_copy sh s = true) by (unfold can_copy; rewrite Rp, P, Hdf; reflexivity).
            destruct (d_src (get d s)) eqn:Sr.
-           ++ assert (St : dstep sh (can_copy sh s) (any_closed s) (get d s) ReadEOF (upd_eof (get d s))).
+           ++ assert (St : dstep sh (can_copy sh s) (may_break sh s d) (get d s) ReadEOF (upd_eof (get d s))).
               { constructor; auto. rewrite C; reflexivity. }
               specialize (Q _ _ (S_dir sh s d ReadEOF _ St)). discriminate.
            ++ pose (bs := firstn (N.to_nat (sh_bufsz sh)) (d_src (get d s))).
-              assert (St : dstep sh (can_copy sh s) (any_closed s) (get d s) (Read bs)
+              assert (St : dstep sh (can_copy sh s) (may_break sh s d) (get d s) (Read bs)
                                  (upd_read (get d s) bs (skipn (N.to_nat (sh_bufsz sh)) (d_src (get d s))))).
               { constructor; auto.
                 - rewrite C; reflexivity.
@@ -562,11 +565,11 @@ Proof.
            assert (GO : grace_over sh s = true) by (unfold grace_over; rewrite E1; apply Z.leb_le; assumption).
            assert (Cl : closed Up s = false) by (simpl; apply orb_false_iff in AC; tauto).
            specialize (Q _ _ (S_close sh s Up Cl (or_intror GO))). discriminate.
-    + assert (St : dstep sh (can_copy sh s) (any_closed s) (get d s) (Deliver (d_buf (get d s))) (upd_deliver (get d s))).
+    + assert (St : dstep sh (can_copy sh s) (may_break sh s d) (get d s) (Deliver (d_buf (get d s))) (upd_deliver (get d s))).
       { constructor; auto. rewrite B. discriminate. }
       specialize (Q _ _ (S_dir sh s d _ _ St)). discriminate.
   - (* Flushed *)
-    assert (St : dstep sh (can_copy sh s) (any_closed s) (get d s) CloseWrite (upd_cw sh (get d s))).
+    assert (St : dstep sh (can_copy sh s) (may_break sh s d) (get d s) CloseWrite (upd_cw sh (get d s))).
     { constructor; assumption. }
     specialize (Q _ _ (S_dir sh s d _ _ St)). discriminate.
 Qed.
@@ -588,7 +591,7 @@ Lemma both_closed :
 Proof.
   intros Q W1 W2.
   pose proof (quiet_done CT Q W1) as D1. pose proof (quiet_done TC Q W2) as D2. simpl in D1, D2.
-  destruct Hsh as (_ & _ & _ & Hwa & _ & _ & Hcu & Hcd).
+  destruct Hsh as (_ & _ & _ & Hwa & _ & _ & Hcu & Hcd & _).
   assert (Fin : finished sh s = true).
   { unfold finished, both_done, is_done. rewrite Hwa, D1, D2. reflexivity. }
   split.
@@ -604,7 +607,7 @@ End Reach.
 
 (* ------------------------------------------------ the two directions are independent *)
 Lemma can_copy_after sh s d a x :
-  dstep sh (can_copy sh s) (any_closed s) (get d s) a x -> can_copy sh (note_done a (set d s x)) = can_copy sh s.
+  dstep sh (can_copy sh s) (may_break sh s d) (get d s) a x -> can_copy sh (note_done a (set d s x)) = can_copy sh s.
 Proof.
   intro H. apply dstep_pre in H. unfold can_copy.
   destruct (note_done_fields a (set d s x)) as (N1 & N2 & _). rewrite N1, N2.
@@ -616,6 +619,9 @@ Proof.
   unfold any_closed. destruct (note_done_fields a (set d s x)) as (_ & _ & _ & _ & _ & N6 & N7).
   rewrite N6, N7. destruct d; reflexivity.
 Qed.
+
+Lemma may_break_after sh a d s x d' : may_break sh (note_done a (set d s x)) d' = may_break sh s d'.
+Proof. unfold may_break. rewrite any_closed_after. reflexivity. Qed.
 
 Lemma get_after_other a d d' s x : d' <> d -> get d' (note_done a (set d s x)) = get d' s.
 Proof. intro NE. rewrite get_note_done. apply get_set_other; assumption. Qed.
@@ -634,12 +640,12 @@ Proof.
   intros NE H1 H2. inversion H1; subst. inversion H2; subst.
   rename x' into x1. rename x'0 into x2.
   match goal with A : dstep _ _ _ (get d1 s) a1 x1, B : dstep _ _ _ (get d2 s) a2 x2 |- _ => rename A into H3; rename B into H4 end.
-  assert (D2 : dstep sh (can_copy sh (note_done a1 (set d1 s x1))) (any_closed (note_done a1 (set d1 s x1)))
+  assert (D2 : dstep sh (can_copy sh (note_done a1 (set d1 s x1))) (may_break sh (note_done a1 (set d1 s x1)) d2)
                      (get d2 (note_done a1 (set d1 s x1))) a2 x2).
-  { rewrite (can_copy_after _ _ _ _ _ H3), any_closed_after, get_after_other by congruence. assumption. }
-  assert (D1 : dstep sh (can_copy sh (note_done a2 (set d2 s x2))) (any_closed (note_done a2 (set d2 s x2)))
+  { rewrite (can_copy_after _ _ _ _ _ H3), may_break_after, get_after_other by congruence. assumption. }
+  assert (D1 : dstep sh (can_copy sh (note_done a2 (set d2 s x2))) (may_break sh (note_done a2 (set d2 s x2)) d1)
                      (get d1 (note_done a2 (set d2 s x2))) a1 x1).
-  { rewrite (can_copy_after _ _ _ _ _ H4), any_closed_after, get_after_other by congruence. assumption. }
+  { rewrite (can_copy_after _ _ _ _ _ H4), may_break_after, get_after_other by congruence. assumption. }
   pose proof (S_dir _ _ _ _ _ D2) as T2. pose proof (S_dir _ _ _ _ _ D1) as T1.
   destruct d1, d2; try congruence.
   - exists (note_done a2 (set TC (note_done a1 (set CT s x1)) x2)). split; [exact T2|].
